@@ -17,10 +17,17 @@ SPEC = {'id': 'C06',
           ('Snowflake.Tie.NameMatcher', 'Snowflake.Tie.NameMatcher.proxyRejects_tie'),
           ('Snowflake.Tie.NameMatcher', 'Snowflake.Tie.NameMatcher.proxyPolls_check_precedes_offer')],
  'harness': [{'pkg': 'common/namematcher', 'test': 'TestVerifC06Matcher'},
-             {'pkg': 'broker', 'test': 'TestVerifC06Broker'}],
+             {'pkg': 'broker', 'test': 'TestVerifC06Broker'},
+             {'pkg': 'proxy/lib', 'test': 'TestVerifC06Proxy$', 'checklinkname': True}],
+ 'parallel': 3,
  'overlay': {'common/namematcher/zz_verif_c06_test.go': 'c06_namematcher_test.go',
-             'broker/zz_verif_c06_test.go': 'c06_broker_test.go'},
- 'rule': 'cases = (pattern, pattern, hostname) triples built to share suffixes (with/without ^ and $, empty, doubled '
+             'broker/zz_verif_c06_test.go': 'c06_broker_test.go',
+             'proxy/lib/zz_verif_c16_test.go': 'c16_proxylib_test.go'},
+ 'rule': 'proxy side: relay URLs (inside / outside the pattern, ws / wss, userinfo, suffix and prefix tricks, ports, '
+         'upper case, opaque, empty, unparsable) and URL histories (accepted over TLS, then the same host without TLS / as '
+         'userinfo of a decoy / over http) through the real runSession of long-lived proxies, six patterns x both values '
+         'of the non-TLS flag, observed at /answer and at a decoy listener; '
+         'cases = (pattern, pattern, hostname) triples built to share suffixes (with/without ^ and $, empty, doubled '
          'anchors), broker configurations (allowed, presumed, proxy pattern, legacy flag) through the real '
          'CheckProxyRelayPattern and the real IPC.ProxyPolls; non-trivial = superset or membership holds / every '
          'broker case; distinct = distinct (class, case line)',
